@@ -11,6 +11,8 @@
 (*           "file_other_ext" (a name with the                             *)
 (*           extension of ANOTHER registered packager), "dir", "dir_slash",*)
 (*           "dir_dotted" (an existing directory with a dot in its name), *)
+(*           "file_tilde" / "dir_tilde" (a relative name that starts with *)
+(*           a tilde: a name like any other, not a home directory),       *)
 (*           "symlink_dir", "empty"                                        *)
 (*           (no -t), "devfull" (a name whose writes fail), "existing_larger"*)
 (*   withp : -p <fmt> given                                                 *)
@@ -22,14 +24,14 @@ EXTENDS Integers, Sequences, FiniteSets, TLC, Json
 
 CONSTANT CliDeviations   \* "NoRemoveOnError": the partial file is left behind; "RemoveWrongPath": cleanup uses the -t argument, not the resolved path
 
-Kinds == {"file", "file_foreign_ext", "file_other_ext", "file_no_ext", "dir", "dir_slash", "dir_dotted", "symlink_dir", "empty", "devfull", "existing_larger"}
+Kinds == {"file", "file_foreign_ext", "file_other_ext", "file_no_ext", "file_tilde", "dir", "dir_slash", "dir_dotted", "dir_tilde", "symlink_dir", "empty", "devfull", "existing_larger"}
 Faults == {"none", "missing_script", "missing_source", "bad_config", "devfull", "missing_key"}
 Signs(f) == f \in {"deb", "rpm", "apk"}
 Fmts == {"deb", "rpm", "apk", "archlinux", "ipk"}
 
-IsDirKind(k) == k \in {"dir", "dir_slash", "dir_dotted", "symlink_dir"}
+IsDirKind(k) == k \in {"dir", "dir_slash", "dir_dotted", "dir_tilde", "symlink_dir"}
 (* the extension names a registered packager (".pkg.tar.zst" -> "zst" does not) *)
-CanInfer(f, k) == (k \in {"file", "devfull", "existing_larger"} /\ f # "archlinux") \/ k = "file_other_ext"
+CanInfer(f, k) == (k \in {"file", "file_tilde", "devfull", "existing_larger"} /\ f # "archlinux") \/ k = "file_other_ext"
 (* the other packager whose extension a "file_other_ext" target carries (never archlinux: its extension names no packager) *)
 Other(f) == CASE f = "deb" -> "rpm" [] f = "rpm" -> "apk" [] f = "apk" -> "ipk" [] f = "ipk" -> "deb" [] OTHER -> "deb"
 (* what gets packaged: the packager given with -p, whatever the target is called; otherwise the one its extension names *)
